@@ -240,6 +240,8 @@ pub struct World {
     conn: Option<ConnFut>,
     client: Option<Client>,
     events: Option<ConnectionEvents>,
+    /// the application does not poll its event stream for a while (events pile up in the channel)
+    ev_paused: bool,
     callers: BTreeMap<usize, CallerFut>,
     closed_seen: bool,
     evend_seen: bool,
@@ -263,6 +265,7 @@ impl World {
             conn: Some(conn),
             client: None,
             events: None,
+            ev_paused: false,
             callers: BTreeMap::new(),
             closed_seen: false,
             evend_seen: false,
@@ -348,6 +351,17 @@ impl World {
             "w" => {
                 self.sh.lock().unwrap().werr = Some(rest.parse().unwrap());
             }
+            // the application drops its ConnectionEvents receiver (allowed by the API)
+            "E" => {
+                self.events = None;
+            }
+            // the application stops / resumes polling its event stream
+            "P" => {
+                self.ev_paused = true;
+            }
+            "R" => {
+                self.ev_paused = false;
+            }
             // write back-pressure: B<k> = accept k more bytes, then Pending; U = unblock
             "B" => {
                 self.sh.lock().unwrap().wblock = Some(rest.parse().unwrap());
@@ -367,6 +381,9 @@ impl World {
         // quiesce
         let mut conn_part: Option<String> = None;
         let mut results: Vec<(usize, String)> = Vec::new();
+        // quiescent = two rounds in a row without progress (a round in which the task only FAILED a
+        // write, or exited, changes nothing the harness can see, yet it may have answered a caller)
+        let mut idle_rounds = 0;
         for _round in 0..400 {
             let w0 = self.sh.lock().unwrap().written.len();
             settle().await;
@@ -401,8 +418,13 @@ impl World {
             if self.sh.lock().unwrap().written.len() != w0 {
                 progress = true;
             }
-            if !progress {
-                break;
+            if progress {
+                idle_rounds = 0;
+            } else {
+                idle_rounds += 1;
+                if idle_rounds >= 2 {
+                    break;
+                }
             }
         }
         if let Some(c) = conn_part {
@@ -418,7 +440,7 @@ impl World {
         }
         // events
         let mut closing = Vec::new();
-        if let Some(ev) = &mut self.events {
+        if let Some(ev) = self.events.as_mut().filter(|_| !self.ev_paused) {
             loop {
                 let mut f = Box::pin(ev.next());
                 match poll_once(&mut f) {
@@ -794,6 +816,51 @@ pub struct GenCfg {
     pub bytewise: bool,
     /// inject only write faults, rarely (the read side stays intact)
     pub wfaults: bool,
+    /// the application may drop its ConnectionEvents receiver
+    pub drop_events: bool,
+}
+
+/// C04 with a lagging consumer: the application does not poll its event stream while `n` changes are
+/// reported one after the other, then it catches up. Every change must still be delivered, in order
+/// (oracle-only op `loopx`: the model emits events at once and knows nothing about the consumer).
+pub fn gen_burst(r: &mut Rng, n: usize) -> String {
+    let sel_seed = r.next() % 1_000_000;
+    let rt = runtime(sel_seed);
+    rt.block_on(async {
+        let mut w = World::new(None, sel_seed);
+        let mut sv = SimServer::default();
+        let mut actions: Vec<String> = Vec::new();
+        async fn act(w: &mut World, sv: &mut SimServer, actions: &mut Vec<String>, a: String) {
+            let seg = w.act(&a).await;
+            actions.push(a);
+            for p in seg.split('&') {
+                if let Some(h) = p.strip_prefix("w=") {
+                    sv.feed(&unhex(h));
+                }
+            }
+        }
+        act(&mut w, &mut sv, &mut actions, format!("d{}", hex(b"OK MPD 0.23.5\n"))).await;
+        act(&mut w, &mut sv, &mut actions, "P".to_string()).await;
+        const NAMES: &[&str] = &["player", "mixer", "database", "zzz_unknown", "options", "playlist"];
+        for k in 0..n {
+            let s = NAMES[(k + r.below(2)) % NAMES.len()];
+            sv.change(s);
+            act(&mut w, &mut sv, &mut actions, format!("s{}", hex(s.as_bytes()))).await;
+            if !sv.out.is_empty() {
+                let v: Vec<u8> = sv.out.drain(..).collect();
+                act(&mut w, &mut sv, &mut actions, format!("d{}", hex(&v))).await;
+            }
+        }
+        act(&mut w, &mut sv, &mut actions, "R".to_string()).await;
+        for _ in 0..3 {
+            if !sv.out.is_empty() {
+                let v: Vec<u8> = sv.out.drain(..).collect();
+                act(&mut w, &mut sv, &mut actions, format!("d{}", hex(&v))).await;
+            }
+            act(&mut w, &mut sv, &mut actions, "t100".to_string()).await;
+        }
+        format!("loopx.C04.{} ~ {}", sel_seed, actions.join(","))
+    })
 }
 
 /// one schedule, generated online; returns the op line
@@ -835,7 +902,13 @@ pub fn gen_schedule(r: &mut Rng, g: &GenCfg, steps: usize, prop: &str, backpress
             1 if g.faults => b"NOPE\n".to_vec(),
             _ => format!("OK MPD 0.{}.{}\n", r.below(30), r.below(20)).into_bytes(),
         };
-        if r.chance(1, 3) && greeting.len() > 3 {
+        if g.password && r.chance(1, 8) {
+            // a peer that talks before it is asked: bytes arriving in the same read as the greeting
+            // cannot be the verdict on a password that has not been sent yet
+            let mut v = greeting.clone();
+            v.extend_from_slice(*r.pick(&[&b"OK\n"[..], b"ACK [3@0] {password} incorrect password\n", b"foo: bar\nOK\n"]));
+            do_act(&mut w, &mut sv, &mut actions, format!("d{}", hex(&v))).await;
+        } else if r.chance(1, 3) && greeting.len() > 3 {
             let p = r.range(1, greeting.len() - 1);
             do_act(&mut w, &mut sv, &mut actions, format!("d{}", hex(&greeting[..p]))).await;
             do_act(&mut w, &mut sv, &mut actions, format!("d{}", hex(&greeting[p..]))).await;
@@ -880,6 +953,7 @@ pub fn gen_schedule(r: &mut Rng, g: &GenCfg, steps: usize, prop: &str, backpress
             }
         }
         let mut blocked = false;
+        let mut events_dropped = false;
         for _ in 0..steps {
             let connected = w.connected();
             // write back-pressure (schedules `loopx`, judged by the oracle only)
@@ -894,6 +968,35 @@ pub fn gen_schedule(r: &mut Rng, g: &GenCfg, steps: usize, prop: &str, backpress
                     do_act(&mut w, &mut sv, &mut actions, "U".to_string()).await;
                     continue;
                 }
+            }
+            // the application drops its event receiver (C01, C05, C17: the loop must carry on)
+            if g.drop_events && connected && !events_dropped && r.chance(1, 25) {
+                events_dropped = true;
+                do_act(&mut w, &mut sv, &mut actions, "E".to_string()).await;
+                continue;
+            }
+            // back-pressure exactly in the re-idle window: a reply has just been delivered, the next
+            // request's write stalls, the 100 ms timer fires meanwhile, then the transport drains
+            if backpressure && connected && main_alive && !faulted && !blocked && sv.out.is_empty() && r.chance(1, 6) {
+                rid += 1;
+                do_act(&mut w, &mut sv, &mut actions, format!("q{}:{}", rid, cmd_spec("x", &[format!("pre{rid}")]))).await;
+                for _ in 0..4 {
+                    if sv.out.is_empty() {
+                        break;
+                    }
+                    let v: Vec<u8> = sv.out.drain(..).collect();
+                    do_act(&mut w, &mut sv, &mut actions, format!("d{}", hex(&v))).await;
+                }
+                let k = *r.pick(&[0usize, 1, 2, 3, 5, 9]);
+                do_act(&mut w, &mut sv, &mut actions, format!("B{k}")).await;
+                rid += 1;
+                let n = r.range(1, 3);
+                let spec: Vec<String> = (0..n).map(|j| cmd_spec("x", &[format!("bp{rid}_{j}")])).collect();
+                do_act(&mut w, &mut sv, &mut actions, format!("q{}:{}", rid, spec.join("+"))).await;
+                let ms = *r.pick(&[100usize, 101, 150, 99]);
+                do_act(&mut w, &mut sv, &mut actions, format!("t{ms}")).await;
+                do_act(&mut w, &mut sv, &mut actions, "U".to_string()).await;
+                continue;
             }
             let a = r.below(if faulted { 9 } else if g.faults || g.wfaults { 14 } else { 12 });
             match a {
@@ -956,7 +1059,13 @@ pub fn gen_schedule(r: &mut Rng, g: &GenCfg, steps: usize, prop: &str, backpress
                     }
                 }
                 8 => {
-                    let ms = *r.pick(&[100usize, 100, 100, 50, 30, 99, 101, 200]);
+                    // mostly around the 100 ms re-idle window; sometimes long silences (31 s, 5 min, 1 h):
+                    // nothing in the loop may depend on how long a reply or a quiet period takes
+                    let ms = if r.chance(1, 12) {
+                        *r.pick(&[31_000usize, 300_001, 3_600_000])
+                    } else {
+                        *r.pick(&[100usize, 100, 100, 50, 30, 99, 101, 200])
+                    };
                     do_act(&mut w, &mut sv, &mut actions, format!("t{ms}")).await;
                 }
                 9 if !live.is_empty() && r.chance(1, 3) => {
@@ -1045,13 +1154,13 @@ pub fn gen(cfg: &Cfg) -> Vec<String> {
     let scale = if cfg.thorough { 25 } else { 1 };
     let mut ops = Vec::new();
     let (n, g) = match cfg.prop.as_str() {
-        "C01" => (cfg.n.unwrap_or(1200 * scale), GenCfg { faults: false, password: false, art: false, typed: false, changes: true, bytewise: true, wfaults: false }),
-        "C04" => (cfg.n.unwrap_or(1200 * scale), GenCfg { faults: false, password: false, art: false, typed: false, changes: true, bytewise: true, wfaults: true }),
-        "C05" => (cfg.n.unwrap_or(1200 * scale), GenCfg { faults: false, password: false, art: false, typed: false, changes: true, bytewise: false, wfaults: false }),
-        "C08" => (cfg.n.unwrap_or(1500 * scale), GenCfg { faults: true, password: false, art: false, typed: false, changes: true, bytewise: false, wfaults: false }),
-        "C13" => (cfg.n.unwrap_or(600 * scale), GenCfg { faults: false, password: false, art: false, typed: true, changes: true, bytewise: true, wfaults: false }),
-        "C17" => (cfg.n.unwrap_or(500 * scale), GenCfg { faults: false, password: false, art: true, typed: false, changes: true, bytewise: false, wfaults: false }),
-        "C18" => (cfg.n.unwrap_or(600 * scale), GenCfg { faults: true, password: true, art: false, typed: false, changes: false, bytewise: true, wfaults: false }),
+        "C01" => (cfg.n.unwrap_or(1200 * scale), GenCfg { faults: false, password: false, art: false, typed: false, changes: true, bytewise: true, wfaults: false, drop_events: true }),
+        "C04" => (cfg.n.unwrap_or(1200 * scale), GenCfg { faults: false, password: false, art: false, typed: false, changes: true, bytewise: true, wfaults: true, drop_events: false }),
+        "C05" => (cfg.n.unwrap_or(1200 * scale), GenCfg { faults: false, password: false, art: false, typed: false, changes: true, bytewise: false, wfaults: false, drop_events: true }),
+        "C08" => (cfg.n.unwrap_or(1500 * scale), GenCfg { faults: true, password: false, art: true, typed: false, changes: true, bytewise: false, wfaults: false, drop_events: false }),
+        "C13" => (cfg.n.unwrap_or(600 * scale), GenCfg { faults: false, password: false, art: false, typed: true, changes: true, bytewise: true, wfaults: false, drop_events: false }),
+        "C17" => (cfg.n.unwrap_or(500 * scale), GenCfg { faults: false, password: false, art: true, typed: false, changes: true, bytewise: false, wfaults: false, drop_events: true }),
+        "C18" => (cfg.n.unwrap_or(600 * scale), GenCfg { faults: true, password: true, art: false, typed: false, changes: false, bytewise: true, wfaults: false, drop_events: false }),
         other => panic!("family loop does not serve property {other}"),
     };
     for i in 0..n {
@@ -1068,6 +1177,9 @@ pub fn gen(cfg: &Cfg) -> Vec<String> {
             }
         };
         ops.push(gen_schedule(&mut r, &g, steps, &cfg.prop, false));
+        if cfg.prop == "C04" && i < 2 {
+            ops.push(gen_burst(&mut r, 70 + 25 * i));
+        }
         // the same kind of schedule over a transport with write back-pressure (C01, C05, C13: the
         // properties about what is written and who is answered); oracle-only, see Driver/Loop.lean
         if matches!(cfg.prop.as_str(), "C01" | "C05" | "C13") && i % 5 == 0 {
